@@ -753,6 +753,54 @@ func (ch c13) Run(c *core.Ctx) {
 		}
 		ch.runRows(c, env, core.NewRng(c.Seed, "C13rows", 0, i), idx)
 	}
+	// the handler reads one row through the row reader and then gives up for a reason of its own while the
+	// client pauses; what the client sends next (Sync, a Query, more CopyData and CopyDone) is the command
+	// loop's to read: one ErrorResponse, one ReadyForQuery, the next Query answered
+	if c.Batch == 2%nb && c.Begin(4100000) {
+		for v := 0; v < 4; v++ {
+			t := c14table{OIDs: []uint32{pg.OIDInt4, pg.OIDText}, Rows: [][]any{{int32(1), "one"}, {int32(2), "two"}, {int32(3), "three"}}, Trailer: true}
+			stream, ends := t.encode()
+			plan := &hs.CopyPlan{Format: wire.BinaryFormat, MaxReads: 1, OnStop: "own", OnErr: "propagate", Binary: true}
+			cols := wire.Columns{{Name: "a", Oid: oid.T_int4, Width: 4}, {Name: "b", Oid: oid.T_text, Width: -1}}
+			probe := &hs.Prog{Stmts: []*hs.Stmt{{ID: "probe", Cols: textCols(1), Ops: []hs.Op{{K: "row", Vals: []any{"p"}}, {K: "complete", Tag: "SELECT 1"}}}}}
+			sess := &hs.Sess{Progs: map[string]*hs.Prog{"copy": {Stmts: []*hs.Stmt{{ID: "copy", Cols: cols, Params: []oid.Oid{}, Ops: []hs.Op{{K: "copy", Copy: plan}}}}}, "probe": probe}}
+			cl := hs.NewClient(env.Dial(sess))
+			if err := cl.StartupOK("u"); err != nil {
+				continue
+			}
+			exec := v%2 == 1
+			var steps [][]byte
+			var want []string
+			if exec {
+				steps, want = append(steps, append(append(pg.Parse("", "copy", nil), pg.Bind("", "", nil, nil, nil)...), pg.Execute("", 0)...)), append(want, "12G")
+				steps, want = append(steps, pg.CopyData(stream[:ends[0]])), append(want, "E")
+				steps, want = append(steps, pg.Sync()), append(want, "Z")
+			} else {
+				steps, want = append(steps, pg.Query("copy")), append(want, "TG")
+				steps, want = append(steps, pg.CopyData(stream[:ends[0]])), append(want, "EZ")
+			}
+			if v >= 2 {
+				steps, want = append(steps, pg.CopyData(stream[ends[0]:])), append(want, "")
+				steps, want = append(steps, pg.CopyDone()), append(want, "")
+			}
+			steps, want = append(steps, pg.Query("probe")), append(want, "TDCZ")
+			var got []string
+			for _, in := range steps {
+				out, _ := cl.Step(in)
+				got = append(got, pg.Types(mustMsgs(out)))
+				if hangCheck(c, cl, nil) {
+					return
+				}
+			}
+			c.Count("row_reader_handlers_that_stop_early", 1)
+			c.Eval(fmt.Sprintf("row reader stops early %d", v), true)
+			if strings.Join(got, "|") != strings.Join(want, "|") {
+				c.Violate("stop-early", "after a row-reader handler gave up in the middle of the stream the cycle does not end with one error and one ReadyForQuery, or what the client sends next is not answered", fmt.Sprintf("variant %d (extended=%v): replies %q want %q", v, exec, got, want), map[string]any{"variant": v})
+			}
+			cl.C.CloseWrite()
+			cl.C.WaitClosed()
+		}
+	}
 	// one statement that asks for COPY data twice (a second CopyIn on the same writer once the first
 	// stream has ended): each stream is announced and delivered like the first
 	if c.Batch == 1%nb && c.Begin(4000000) {
